@@ -13,7 +13,6 @@ import (
 	"path/filepath"
 	"sort"
 	"strings"
-	"sync"
 
 	"github.com/apparentlymart/go-versions/versions"
 	regaddr "github.com/hashicorp/terraform-registry-address"
@@ -86,7 +85,7 @@ type Builder struct {
 	// matter.
 	registryPackageVersions map[regaddr.ModulePackage][]ModulePackageInfo
 
-	mu sync.Mutex
+	mu builderMutex
 }
 
 // NewBuilder creates a new builder that will construct a source bundle in the
